@@ -9,6 +9,7 @@ from typing import List, Tuple, Type, Generator, Optional
 assert sys.version_info >= (3, 11)
 
 from ._lowlevel import FrameDetails
+from . import _verif
 
 
 # Reference for the frame changes in 3.11:
@@ -163,6 +164,8 @@ def inspect_frame(frame: FrameType) -> FrameDetails:
                 break
         else:
             handler_depth = 0
+        if _verif.ENABLED:
+            _verif.point("snap_lasti", frame=frame, lasti=lasti_before, depth=handler_depth)
 
         try:
             # Unavoidable hazard (unless we write a C extension): If
@@ -175,6 +178,8 @@ def inspect_frame(frame: FrameType) -> FrameDetails:
             # InterpreterFrame object are kept within this
             # consistency-checked loop for that reason.
             iframe_raw = frame_raw.f_frame.contents
+            if _verif.ENABLED:
+                _verif.point("snap_deref", frame=frame)
             assert iframe_raw.f_globals == id(frame.f_globals)
             assert iframe_raw.f_builtins == id(frame.f_builtins)
             assert iframe_raw.f_code == id(frame.f_code)
@@ -201,6 +206,8 @@ def inspect_frame(frame: FrameType) -> FrameDetails:
                 ctypes.addressof(iframe_raw) + stack_start_offset
             )
             assert frame.f_lasti == lasti_before
+            if _verif.ENABLED:
+                _verif.point("snap_header", frame=frame, stack_len=stack_len)
 
             # Extract object pointers for it. This is by far the most
             # delicate part of our routine if the frame is executing
@@ -223,6 +230,8 @@ def inspect_frame(frame: FrameType) -> FrameDetails:
                     # Note this also suffices to check that the frame remains
                     # pinned on the thread stack if it was before, because
                     # finishing execution would change lasti.
+                    if _verif.ENABLED:
+                        _verif.point("snap_slot", frame=frame, i=i)
                     assert frame.f_lasti == lasti_before
 
                     try:
@@ -236,12 +245,16 @@ def inspect_frame(frame: FrameType) -> FrameDetails:
 
                     details.stack.append(obj)
 
+            if _verif.ENABLED:
+                _verif.point("snap_final", frame=frame)
             assert frame.f_lasti == lasti_before
 
         except AssertionError:
             if frame.f_lasti == lasti_before:
                 raise
             # otherwise this was probably a concurrent modification, try again
+            if _verif.ENABLED:
+                _verif.point("snap_retry", frame=frame)
             continue
 
         # we got a consistent snapshot
